@@ -58,6 +58,15 @@ PLANS["C07"] = {
     "thorough": [J("acktiming", "p=2,f=2,s=2", 900)],
 }
 
+PLANS["C17"] = {
+    "quick": [J("window21", "p=1,f=1,c=1", 30), J("window21wrap", "p=1,f=1,c=1", 30), J("window10", "p=1,f=1", 15), J("window3neg", "p=1,f=1", 15)],
+    "thorough": [J("window21", "p=2,f=2,c=1,s=1", 400), J("window21wrap", "p=2,f=2,c=1,s=1", 400), J("window10", "p=2,f=2,c=1", 200), J("window3neg", "p=2,f=2,c=1", 200)],
+}
+PLANS["C18"] = {
+    "quick": [J("connect", "p=1,f=1", 45), J("connectclean", "p=1,f=1", 45)],
+    "thorough": [J("connect", "p=1,f=2,s=1", 600), J("connectclean", "p=1,f=2,s=1", 600), J("connectfull", "f=1", 300)],
+}
+
 LEVELS = {}
 
 ASSUMPTIONS = {
